@@ -191,6 +191,9 @@ def parseLines : Nat → List String → Scenario → Option Scenario
       let n ← n.toNat?
       let (as, rest) ← takeActs n ls
       parseLines fuel rest { sc with tops := sc.tops ++ [.acts as] }
+    | "top" :: "appreactor" :: d :: ts => do
+      -- `App::add_reactor(triggers, f)` = `app.react(|rc| rc.on_persistent(triggers, f))`: one batch with one action
+      parseLines fuel ls { sc with tops := sc.tops ++ [.acts [.on .persistent (← d.toNat?) (← parseTrigs ts)]] }
     | "top" :: r => do
       let t ← parseTop r
       parseLines fuel ls { sc with tops := sc.tops ++ [t] }
